@@ -37,7 +37,7 @@ def flipCase (c : Char) : Char :=
 
 /-- The other members of the *simple case folding* orbit of `c` (Unicode `CaseFolding.txt`, status C+S – what the
 regex crate uses for `(?i)`): ASCII, plus the non-ASCII letters the harness generates – Latin-1 letters
-(`é/É` …, except `å`, `ÿ`, `µ`, which have partners outside the block and are not generated), `ß/ẞ`, `ſ` and the
+(`é/É` …, incl. `ÿ/Ÿ`, `å/Å/Å`, `µ/μ/Μ` whose partners lie outside the block), `ß/ẞ`, `ſ` and the
 Kelvin sign (partners of `s` / `k`), Cyrillic `а–я/А–Я`, Greek `σ/Σ/ς`, and the digraph `Ǆ/ǅ/ǆ`.  Characters
 without a simple folding partner (`İ`, `ı`, digits, CJK, emoji, …) have an empty orbit.  Validated against the crate
 by the `rx` cases of the C08 correspondence. -/
@@ -51,6 +51,12 @@ def caseOrbit (c : Char) : List Char :=
   else if n = 0x17F then ['s', 'S']
   else if n = 0xDF then [Char.ofNat 0x1E9E]
   else if n = 0x1E9E then [Char.ofNat 0xDF]
+  -- ÿ / Ÿ,  å / Å / Å (ANGSTROM SIGN)
+  else if n = 0xFF then [Char.ofNat 0x178]
+  else if n = 0x178 then [Char.ofNat 0xFF]
+  else if n = 0xE5 then [Char.ofNat 0xC5, Char.ofNat 0x212B]
+  else if n = 0xC5 then [Char.ofNat 0xE5, Char.ofNat 0x212B]
+  else if n = 0x212B then [Char.ofNat 0xE5, Char.ofNat 0xC5]
   -- Latin-1 Supplement: à–þ (except ÷, å) ↔ À–Þ (except ×, Å)
   else if 0xE0 ≤ n ∧ n ≤ 0xFE ∧ n ≠ 0xF7 ∧ n ≠ 0xE5 then [Char.ofNat (n - 0x20)]
   else if 0xC0 ≤ n ∧ n ≤ 0xDE ∧ n ≠ 0xD7 ∧ n ≠ 0xC5 then [Char.ofNat (n + 0x20)]
@@ -306,7 +312,7 @@ def spaceRanges : List (Char × Char) :=
 /-- `\pL` (letters) on the covered blocks. -/
 def letterRanges : List (Char × Char) :=
   [rg 0x41 0x5A, rg 0x61 0x7A, rg 0xAA 0xAA, rg 0xB5 0xB5, rg 0xBA 0xBA, rg 0xC0 0xD6, rg 0xD8 0xF6, rg 0xF8 0x24F,
-   rg 0x391 0x3A1, rg 0x3A3 0x3C9, rg 0x400 0x45F, rg 0x1E00 0x1EFF, rg 0x212A 0x212A, rg 0x4E00 0x9FFF]
+   rg 0x391 0x3A1, rg 0x3A3 0x3C9, rg 0x400 0x45F, rg 0x1E00 0x1EFF, rg 0x212A 0x212B, rg 0x4E00 0x9FFF]
 
 /-- `\w` = Alphabetic ∪ marks ∪ decimal digits ∪ connector punctuation ∪ join controls, on the covered blocks. -/
 def wordRanges : List (Char × Char) :=
@@ -318,7 +324,7 @@ def knownChar (c : Char) : Bool :=
   let n := c.toNat
   n < 0x250 || (0x300 ≤ n && n ≤ 0x36F) || (0x391 ≤ n && n ≤ 0x3C9 && n != 0x3A2) || (0x400 ≤ n && n ≤ 0x45F) ||
     (0x660 ≤ n && n ≤ 0x669) || (0x966 ≤ n && n ≤ 0x96F) || (0x1E00 ≤ n && n ≤ 0x1EFF) || (0x2000 ≤ n && n ≤ 0x206F) ||
-    n == 0x20AC || n == 0x212A || n == 0x3000 || (0x4E00 ≤ n && n ≤ 0x9FFF) || (0xFF10 ≤ n && n ≤ 0xFF19) ||
+    n == 0x20AC || n == 0x212A || n == 0x212B || n == 0x3000 || (0x4E00 ≤ n && n ≤ 0x9FFF) || (0xFF10 ≤ n && n ≤ 0xFF19) ||
     n == 0x1F918 || n == 0x1680
 
 /-- `\w \d \s \W \D \S`. -/
